@@ -17,6 +17,7 @@ CONSTANTS NMax,       \* rank-1 sizes 1..NMax
           AllPos,     \* TRUE: the single extreme element visits every position (else the vector-width boundary set)
           DetMax,     \* determinant sizes 1..DetMax
           Draws,      \* data draws per determinant header
+          Lean,       \* TRUE: thin out the strata that repeat a code path for a second pair of element types (quick tier)
           PosPer,     \* boundary positions of the single extreme element per (fn, T, shape) when ~AllPos
           Extra, PredExtra, IseqExtra      \* numbers of hashed extra headers of the fold / pred / iseq families
 VARIABLE c
@@ -71,7 +72,9 @@ FoldH(f, t, a, s, g, p) == [fn |-> f, T |-> t, arg |-> a, shape |-> s, sign |-> 
 \* the headers are CONSTRUCTED stratum by stratum (enumerating the full product and filtering by hash is too slow):
 FoldHeaders(u) ==
     \* (a) identity-element strata: min / max of all-positive and all-negative tensors, every (T, shape)
-    { FoldH(f, t, "tensor", s, g, 0) : f \in {"min", "max"}, t \in Types, s \in Shapes1 \cup ShapesK, g \in {"pos", "neg"} }
+    \* (min of positive and max of negative data expose a seed that is not neutral: all T; the two harmless combinations: f64, i32 when Lean)
+    { h \in { FoldH(f, t, "tensor", s, g, 0) : f \in {"min", "max"}, t \in Types, s \in Shapes1 \cup ShapesK, g \in {"pos", "neg"} } :
+         Lean => (h.fn = "min") = (h.sign = "pos") \/ h.T \in {"f64", "i32"} }
     \* (b) rotation: every (fn, T, shape) with a sign pattern, an argument kind and (for a single extreme) a boundary position
     \cup { LET n == NEl(s)   fi == Idx(FnSeq, f)
                g == Pick(FoldSigns, n + TI(t) + fi)
@@ -205,7 +208,7 @@ InnerKeep(h) ==
     LET n == NEl(h.shape)
         k == HKey(h.fn, h.T, h.arg, h.shape, h.sign, h.pos, 6)
     IN \/ (h.arg = "tt" /\ h.sign = Pick(<<"pos", "neg", "mixed">>, n + TI(h.T)))                       \* every (T, n)
-       \/ (h.arg = Pick(BinArgs, n + TI(h.T)) /\ h.sign = "mixed")
+       \/ (h.arg = Pick(BinArgs, n + TI(h.T)) /\ h.sign = "mixed" /\ (Lean => h.T \in {"f64", "i32"}))
        \/ k % (2 * Rate) = 0
 InnerBuild(h) ==
     LET n == NEl(h.shape)
